@@ -25,9 +25,11 @@ func runC20(c *core.Ctx) {
 	checkMaxDiffWatermark(c, "GEN")
 	p := c.Prog
 	if fn := p.Func("table_valued_functions", "(*maxDifferenceWatermarkGenerator).Run"); fn != nil {
-		for _, s := range integerDivisions(p, fn) {
-			reach, why, paths := zeroDivisorReachable(p, s)
-			c.Decide(!reach, "PAN1", p.FName(fn)+"/"+core.ExprStr(s.expr), s.expr.Pos(), paths, why, "integer division can panic: "+why)
+		for _, h := range helperClosure(p, fn) {
+			for _, s := range integerDivisions(p, h) {
+				reach, why, paths := divisionVerdict(p, s)
+				c.Decide(!reach, "PAN1", p.FName(fn)+"/"+core.ExprStr(s.expr), s.expr.Pos(), paths, why, "integer division can panic: "+why)
+			}
 		}
 	}
 }
@@ -46,20 +48,96 @@ func checkMaxDiffWatermark(c *core.Ctx, rule string) {
 		c.Unknown(rule, key, fn.Decl.Pos(), "expected one source.Run with literal callbacks")
 		return
 	}
-	T := "record.Values[m.timeFieldIndex].Time"
+	// names are taken from the code: the callback's record parameter, the receiver, the variables holding the evaluated
+	// resolution and max difference, and — by a discovery pass — the two state variables the callback compares with
+	recName, recvName := "record", "m"
+	if pl := rcs[0].Produce.Type.Params.List; len(pl) == 2 && len(pl[1].Names) == 1 {
+		recName = pl[1].Names[0].Name
+	}
+	if fn.Decl.Recv != nil && len(fn.Decl.Recv.List) == 1 && len(fn.Decl.Recv.List[0].Names) == 1 {
+		recvName = fn.Decl.Recv.List[0].Names[0].Name
+	}
+	evaluated := func(field string) string {
+		name := ""
+		ast.Inspect(fn.Decl.Body, func(n ast.Node) bool {
+			if as, ok := n.(*ast.AssignStmt); ok && len(as.Rhs) == 1 && len(as.Lhs) >= 1 {
+				if call, ok := as.Rhs[0].(*ast.CallExpr); ok && core.ExprStr(call.Fun) == recvName+"."+field+".Evaluate" {
+					name = core.ExprStr(as.Lhs[0])
+				}
+			}
+			return true
+		})
+		return name
+	}
+	resVar, diffVar := evaluated("resolution"), evaluated("maxDifference")
+	if resVar == "" || diffVar == "" {
+		c.Unknown(rule, key, fn.Decl.Pos(), "the resolution and the max difference are not evaluated into variables (x, err := m.resolution.Evaluate(ctx))")
+		return
+	}
+	T := recName + ".Values[" + recvName + ".timeFieldIndex].Time"
 	// the rounded candidate: whatever expression builds it from the record's time and the resolution is named ROUNDED
 	// here and judged separately (ROUND below): time.Unix(0, f(UnixNano(T), resolution)); T.Truncate(resolution) is recognised and rejected (other origin)
 	R := "ROUNDED"
 	roundExprs := map[string]token.Pos{}
+	roundingCalls := func(st *absint.State, call *ast.CallExpr, callee string, recv absint.Val, args []absint.Val) (absint.Val, bool) {
+		switch callee {
+		case "time.Unix":
+			if len(args) == 2 && args[0].Canon() == "0" && strings.Contains(args[1].Canon(), "time.Time.UnixNano("+T+")") {
+				roundExprs[args[1].Canon()] = call.Pos()
+				return absint.S(R), true
+			}
+			return absint.S("time.Unix(" + args[0].Canon() + "," + args[1].Canon() + ")"), true
+		case "time.Time.Truncate":
+			if recv.Canon() == T && len(args) == 1 {
+				roundExprs["TRUNCATE("+args[0].Canon()+")"] = call.Pos()
+				return absint.S(R), true
+			}
+		case "time.Time.Add":
+			return absint.S("time.Time.Add(" + recv.Canon() + "," + args[0].Canon() + ")"), true
+		case "time.Time.UnixNano":
+			return absint.S("time.Time.UnixNano(" + recv.Canon() + ")"), true
+		}
+		return nil, false
+	}
+	// discovery: the variable the record's time is compared with (the current watermark) and the one the rounded
+	// time is compared with (the largest rounded time seen)
+	curVar, maxVar := "", ""
+	{
+		in := newInterp(p, fn)
+		in.Hooks.Call = chainCall(func(st *absint.State, call *ast.CallExpr, callee string, recv absint.Val, args []absint.Val) (absint.Val, bool) {
+			if (callee == "time.Time.After" || callee == "time.Time.Before") && len(args) == 1 {
+				a, b := recv.Canon(), args[0].Canon()
+				for _, pr := range [][2]string{{a, b}, {b, a}} {
+					if pr[0] == T && curVar == "" {
+						curVar = pr[1]
+					}
+					if pr[0] == R && maxVar == "" {
+						maxVar = pr[1]
+					}
+				}
+			}
+			return nil, false
+		}, recordCtorHook, roundingCalls, func(st *absint.State, call *ast.CallExpr, callee string, recv absint.Val, args []absint.Val) (absint.Val, bool) {
+			if callee == "value:produce" || callee == "value:metaSend" {
+				return absint.Nil{}, true
+			}
+			return nil, false
+		}, errorfHook)
+		if _, err := runLit(in, rcs[0].Produce, nil, ""); err != nil || curVar == "" || maxVar == "" {
+			c.Unknown(rule, key, rcs[0].Produce.Pos(), fmt.Sprintf("the callback does not compare the record's time and the rounded time with state variables through After/Before (found %q, %q; %v)", curVar, maxVar, err))
+			return
+		}
+		roundExprs = map[string]token.Pos{}
+	}
 	for _, rel := range []absint.Rel{absint.LT, absint.EQ, absint.GT} {
 		for _, adv := range []bool{true, false} {
 			rel, adv := rel, adv
 			o := absint.OrderOracle{}
-			o.Set(T, "curWatermark", rel)
+			o.Set(T, curVar, rel)
 			if adv {
-				o.Set(R, "maxValue", absint.GT)
+				o.Set(R, maxVar, absint.GT)
 			} else {
-				o.Set(R, "maxValue", absint.EQ)
+				o.Set(R, maxVar, absint.EQ)
 			}
 			in := newInterp(p, fn)
 			in.Hooks.Call = chainCall(timeRelHook(o), recordCtorHook, func(st *absint.State, call *ast.CallExpr, callee string, recv absint.Val, args []absint.Val) (absint.Val, bool) {
@@ -70,24 +148,9 @@ func checkMaxDiffWatermark(c *core.Ctx, rule string) {
 				case "value:metaSend":
 					st.Emit("METASEND", call.Pos(), args...)
 					return absint.Nil{}, true
-				case "time.Unix":
-					if len(args) == 2 && args[0].Canon() == "0" && strings.Contains(args[1].Canon(), "time.Time.UnixNano("+T+")") {
-						roundExprs[args[1].Canon()] = call.Pos()
-						return absint.S(R), true
-					}
-					return absint.S("time.Unix(" + args[0].Canon() + "," + args[1].Canon() + ")"), true
-				case "time.Time.Truncate":
-					if recv.Canon() == T && len(args) == 1 {
-						roundExprs["TRUNCATE("+args[0].Canon()+")"] = call.Pos()
-						return absint.S(R), true
-					}
-				case "time.Time.Add":
-					return absint.S("time.Time.Add(" + recv.Canon() + "," + args[0].Canon() + ")"), true
-				case "time.Time.UnixNano":
-					return absint.S("time.Time.UnixNano(" + recv.Canon() + ")"), true
 				}
 				return nil, false
-			}, errorfHook)
+			}, roundingCalls, errorfHook)
 			outs, err := runLit(in, rcs[0].Produce, nil, "")
 			ckey := fmt.Sprintf("%s/record time %s watermark, rounded time advances=%v", key, rel, adv)
 			if err != nil {
@@ -100,20 +163,20 @@ func checkMaxDiffWatermark(c *core.Ctx, rule string) {
 				evSet := ""
 				for _, e := range out.Events {
 					switch {
-					case e.Name == "store record.EventTime" && len(e.Args) == 1:
+					case e.Name == "store "+recName+".EventTime" && len(e.Args) == 1:
 						evSet = e.Args[0].Canon()
 						if produced > 0 {
 							bad = "the event time is set after the record was produced"
 						}
 					case e.Name == "PRODUCE":
 						produced++
-						if len(e.Args) != 2 || e.Args[1].Canon() != "record" {
+						if len(e.Args) != 2 || e.Args[1].Canon() != recName {
 							bad = "a record other than the received one is produced"
 						}
 					case e.Name == "METASEND":
 						sent++
 						w := out.Field(e.Args[1], "Watermark")
-						want := "time.Time.Add(" + R + ",(-maxDifference.Duration))"
+						want := "time.Time.Add(" + R + ",(-" + diffVar + ".Duration))"
 						if w == nil || w.Canon() != want {
 							bad = fmt.Sprintf("the emitted watermark must be (time rounded down to the resolution) − max_diff = %s; it is %s", want, out.Show(w))
 						}
@@ -129,10 +192,10 @@ func checkMaxDiffWatermark(c *core.Ctx, rule string) {
 					bad = fmt.Sprintf("a watermark must be emitted iff the rounded time strictly exceeds the largest seen (advances=%v): emitted %d", adv, sent)
 				}
 				if adv {
-					if v := out.Env["maxValue"]; v == nil || v.Canon() != R {
+					if v := out.Env[maxVar]; v == nil || v.Canon() != R {
 						bad = "the largest rounded time seen is not updated when a watermark is emitted: watermarks could repeat"
 					}
-					if v := out.Env["curWatermark"]; v == nil || v.Canon() != "time.Time.Add("+R+",(-maxDifference.Duration))" {
+					if v := out.Env[curVar]; v == nil || v.Canon() != "time.Time.Add("+R+",(-"+diffVar+".Duration))" {
 						bad = "the current watermark (used to drop late records) is not updated to the emitted one"
 					}
 				}
@@ -150,7 +213,7 @@ func checkMaxDiffWatermark(c *core.Ctx, rule string) {
 			c.Bad(rule, rkey, pos, 1, "time.Truncate rounds down to multiples of the duration counted from January 1 of year 1, not from the Unix epoch the generator counts from: the two origins are 719162 days apart, so for a resolution that does not divide a day (7s, 11s, 7m) the buckets shift, watermarks are emitted at other records and other records are dropped as late")
 			continue
 		}
-		ok, cases, why := isFloorToMultiple(expr, "time.Time.UnixNano("+T+")", "resolution.Duration")
+		ok, cases, why := isFloorToMultiple(expr, "time.Time.UnixNano("+T+")", resVar+".Duration")
 		c.Decide(ok, rule, rkey, pos, cases, "the nanosecond arithmetic yields the largest multiple of the resolution not above the time, for negative (pre-1970) and positive times", why)
 	}
 	// the source's own watermarks are swallowed, other metadata passes
